@@ -1,1 +1,2 @@
-import IcyVerif.Model.Crc
+import IcyVerif.Props.C19
+import IcyVerif.Drv.Crc
